@@ -1,6 +1,7 @@
 import ASV.Drv.J
 import ASV.Spec.Parallel
 import ASV.Model.Ids
+import ASV.Model.ParallelWorkers
 namespace ASV.Drv.C18
 open Lean ASV ASV.Drv ASV.Parallel
 
@@ -82,9 +83,45 @@ def handlePrepIds (j : Json) : R Json := do
       | _ => Json.null
   return jObj [("model", model), ("shipped", shipped), ("scope", toJson true)]
 
+def optStr (j : Json) : R (Option String) :=
+  match j with
+  | .null => pure none
+  | _ => do return some (← asStr j)
+def jOptStr : Option String → Json
+  | none => Json.null
+  | some s => Json.str s
+
+/-- the worker functions on the observable part of each record: `[seq, skip, n_cds]`; for
+    `genefind` additionally what the gene finder would do (`["finds", n]` | `["fails"]`) -/
+def handleWorkers (j : Json) : R Json := do
+  let func ← strF j "func"
+  let recs ← arrF j "records"
+  let results : List (Except String Json) ← recs.mapM fun r => do
+    let seq := (← asStr (← idx r 0)).toList
+    let skip ← optStr (← idx r 1)
+    let cds ← asNat (← idx r 2)
+    match func with
+    | "sanitise" =>
+      let out := sanitiseSequence ⟨seq, skip⟩
+      return .ok (jArr [Json.str (String.ofList out.seq), jOptStr out.skip, toJson cds])
+    | "genefind" =>
+      let g ← idx r 3
+      let gf ← match (← asStr (← idx g 0)) with
+        | "finds" => do pure (GeneFinder.finds (← asNat (← idx g 1)))
+        | _ => pure GeneFinder.fails
+      match ensureCdsInfo false false gf ⟨skip, cds⟩ with
+      | .ok out => return .ok (jArr [Json.str (String.ofList seq), jOptStr out.skip, toJson out.cds])
+      | .error e => return .error e
+    | f => throw s!"unknown worker function {f}"
+  let model := match comprehension (fun (x : Except String Json) => x) results with
+    | .ok l => jObj [("content", jArr l)]
+    | .error e => jObj [("err", Json.str e)]
+  return jObj [("model", model), ("scope", toJson true)]
+
 def handle (j : Json) : R Json := do
   let kind ← strF j "kind"
   if kind == "prep_ids" then return ← handlePrepIds j
+  if kind == "workers" then return ← handleWorkers j
   let cpus ← natF j "cpus"
   let cfg ← natF j "config_cpus"
   let ht ← boolF j "timeout"
